@@ -5,13 +5,28 @@
 (* The abstract state of a cursor is                                       *)
 (*    pos  : index (1..n) of the last entry an operation returned, 0 if    *)
 (*           the cursor was never positioned or has been reset             *)
-(*    zone : TRUE after some operation returned None and no absolute       *)
-(*           operation has returned an entry since (and no reset) -- the   *)
-(*           only situation in which the statement leaves relative moves   *)
-(*           unspecified.                                                  *)
-(* Every result is a function of (content, state, operation) except in the *)
-(* zone, where next / prev / current may answer any entry of the file or   *)
-(* None.  Results are entry indices, 0 = None.                             *)
+(*    zone : "no"   -- the last operation returned an entry (or the cursor *)
+(*                     is fresh / reset): everything is specified          *)
+(*           "rel"  -- the last operation was a relative move that         *)
+(*                     returned None: the next relative move is the one    *)
+(*                     the statement leaves unspecified; as soon as a      *)
+(*                     relative move returns an entry the position is      *)
+(*                     that entry and everything is specified again        *)
+(*           "seek" -- an absolute operation returned None (a seek beyond  *)
+(*                     the keys, or any absolute move on an empty file)    *)
+(*                     and no absolute operation has returned an entry     *)
+(*                     since: relative moves stay unspecified until then.  *)
+(*                     (At the pinned commit a seek that finds no block    *)
+(*                     leaves the index cursors past the end while the     *)
+(*                     data cursor keeps its place, so the SECOND relative *)
+(*                     move after it may end the scan prematurely; reading *)
+(*                     "issued after an operation returned None" as        *)
+(*                     covering that whole stretch is the only reading     *)
+(*                     under which the code the statement was written      *)
+(*                     against is correct, see DESIGN.md section 5 C03.)   *)
+(* Every result is a function of (content, state, operation) except where  *)
+(* unspecified, where next / prev / current may answer any entry of the    *)
+(* file or None.  Results are entry indices, 0 = None.                     *)
 (***************************************************************************)
 EXTENDS Store
 
@@ -19,7 +34,8 @@ AbsOps == {"first", "last", "ge", "le", "eq"}
 RelOps == {"next", "prev"}
 Ops == AbsOps \cup RelOps \cup {"current", "reset"}
 
-Fresh == [pos |-> 0, zone |-> FALSE]
+Fresh == [pos |-> 0, zone |-> "no"]
+Unspec(st) == st.zone # "no"
 
 AbsAnswer(c, op, q) ==
     CASE op = "first" -> (IF N(c) = 0 THEN 0 ELSE 1)
@@ -38,16 +54,16 @@ RelAnswer(c, st, op) ==
 Allowed(c, st, op, q, res) ==
     /\ res \in 0..N(c)
     /\ CASE op \in AbsOps   -> res = AbsAnswer(c, op, q)
-         [] op \in RelOps   -> st.zone \/ res = RelAnswer(c, st, op)
-         [] op = "current"  -> st.zone \/ st.pos = 0 \/ res = st.pos
+         [] op \in RelOps   -> Unspec(st) \/ res = RelAnswer(c, st, op)
+         [] op = "current"  -> Unspec(st) \/ st.pos = 0 \/ res = st.pos
          [] op = "reset"    -> res = 0
 
 \* The abstract state after `op` answered `res`.
 After(st, op, res) ==
-    CASE op \in AbsOps  -> (IF res # 0 THEN [pos |-> res, zone |-> FALSE]
-                            ELSE [pos |-> st.pos, zone |-> TRUE])
-      [] op \in RelOps  -> (IF res # 0 THEN [pos |-> res, zone |-> st.zone]
-                            ELSE [pos |-> st.pos, zone |-> TRUE])
+    CASE op \in AbsOps  -> (IF res # 0 THEN [pos |-> res, zone |-> "no"]
+                            ELSE [pos |-> st.pos, zone |-> "seek"])
+      [] op \in RelOps  -> (IF res # 0 THEN [pos |-> res, zone |-> IF st.zone = "seek" THEN "seek" ELSE "no"]
+                            ELSE [pos |-> st.pos, zone |-> IF st.zone = "seek" THEN "seek" ELSE "rel"])
       [] op = "current" -> st
       [] op = "reset"   -> Fresh
 
